@@ -184,6 +184,19 @@ def sweeps(tier):
             out.append({"t": TA, "hact": "69/-/68", "req": (ty1, 1, 7, b"\x31", pa, b""),
                         "more": [(ty2, 1, 7, b"\x31", pa, b""), (ty2, 1, 8, b"\x31", pa, b"")],
                         "mcast": False, "tags": ["sweep-async"], "kind": "sweep-async"})
+    # proxy resource (coap_resource_proxy_uri_init2 presets a handler for EVERY method): forward
+    # proxy requests (Proxy-Scheme + foreign Uri-Host) run the proxy handler with each method
+    # 1..7; requests naming this server's own host are served locally
+    for names in ([b"proxy"], [b"h1", b"proxy"], [b""]):
+        for pm in (127, 64, 63, 1):
+            tp = {"mpr": 0, "known": [], "res": [(b"a", 127, 0, 0)], "unk": None, "prx": (pm, 0, names)}
+            for code in range(1, 9):
+                for host in (b"other", b"proxy", b"h1", None):
+                    for ty in (0, 1):
+                        o = list(pa) + [(G.PROXY_SCHEME, b"coap")] + ([(G.URI_HOST, host)] if host else [])
+                        if code == 5:
+                            o.append((G.CONTENT_FORMAT, b""))
+                        add(tp, "69/-/68", (ty, code, 31, b"\x41", o, b"p"), False, "sweep-proxy")
     # one peer, datagrams to different destinations (unicast / multicast): every datagram is
     # judged by ITS destination (the session's local address follows the datagram)
     reqs = [(1, 1, [(G.URI_PATH, b"zz")]), (0, 1, [(G.URI_PATH, b"zz")]), (1, 1, pa), (0, 1, pa),
